@@ -142,6 +142,7 @@ type Engine struct {
 	symvars   []symVar
 	symseen   map[string]int
 	tagcount  map[string]int
+	realDo    int
 	unwind    int
 	depth     int
 	lastPanic *goPanic
